@@ -317,3 +317,265 @@ Proof.
       * apply xattach_new_chan_ok; auto. now rewrite andb_true_r in Hbc.
       * destruct (mem u (st_gone (x_st x))); [apply step_ok_none|]. now apply xattach_new_sub_ok.
 Qed.
+
+(* ---- {leave} ---- *)
+Lemma xdetach_ok x s u c : step_ok x (xdetach x s u c, []) false.
+Proof.
+  unfold xdetach. destruct (lookup s (st_sess (x_st x))) as [d|] eqn:Es; [|apply step_ok_same].
+  destruct (negb (ss_uid d =? u)) eqn:Eu; [apply step_ok_same|]. apply negb_false_iff, N.eqb_eq in Eu.
+  pose proof (lookup_in _ _ _ Es) as Hin.
+  set (asChan := c && chan_ok (x_st x) c).
+  set (st1 := set_sess (remove_key s (st_sess (x_st x))) (x_st x)).
+  assert (H1 : sinv (x_bkg x) (x_st x) -> sinv (x_bkg x) st1).
+  { intros [A [B [C D]]]. split; [now apply wf_remove_key|]. split; [now apply att_x_remove_sess|].
+    split; [now apply online_chan_remove_sess|now apply bkg_ok_remove_sess]. }
+  assert (J1 : joined (x_st x) -> joined st1) by apply joined_remove_sess.
+  destruct (negb (eqb (ss_chan d) asChan)) eqn:Ec.
+  { unfold step_ok. cbn [fst snd existsb]. split; [|split; [|discriminate]].
+    - intros Hinv. apply xinv_split in Hinv. destruct Hinv as [Hs Hc]. apply xinv_intro; cbn [x_st x_bkg set_xst]; [auto|].
+      apply coh_set_xst; [|exact Hc]. reflexivity.
+    - intros _ Hj _. cbn [x_st set_xst]. auto. }
+  apply negb_false_iff, eqb_prop in Ec.
+  set (p := get_pud st1 u).
+  set (n := if is_bkg x s then pu_online p else (pu_online p - 1)%Z).
+  set (st2 := if is_bkg x s then st1 else set_users (upsert u (set_pud_online n) (st_users st1)) st1).
+  (* what the invariant tells about the leaving session *)
+  assert (Hfacts : sinv (x_bkg x) (x_st x) ->
+            exists q, lookup u (st_users (x_st x)) = Some q /\ pu_deleted q = false /\ pu_ischan q = ss_chan d /\ p = q /\
+                      (ss_chan d = true -> is_bkg x s = false /\ (Z.of_nat (cnt u (st_sess st1)) + 1 <= pu_online q)%Z)).
+  { intros [A [B [C D]]]. destruct (B s d Hin) as [q [Hq [Hd Hc]]]. rewrite Eu in Hq. exists q. repeat split; auto.
+    - unfold p, get_pud, st1. cbn [st_users set_sess]. now rewrite Hq.
+    - destruct (is_bkg x s) eqn:Eb; [|reflexivity]. unfold is_bkg in Eb. rewrite (D s d Hin Eb) in H. discriminate.
+    - rewrite <- Hc in H. specialize (C u q Hq H). pose proof (cnt_remove_lt u s d (st_sess (x_st x)) Hin Eu). unfold st1. cbn [st_sess set_sess]. lia. }
+  assert (H2 : sinv (x_bkg x) (x_st x) -> sinv (x_bkg x) st2 /\ (forall u2, live_modes st2 u2 = live_modes (x_st x) u2) /\
+               (joined (x_st x) -> joined st2) /\
+               (ss_chan d = true -> exists q2, lookup u (st_users st2) = Some q2 /\ pu_ischan q2 = true /\ pu_online q2 = n)).
+  { intros Hs. destruct (Hfacts Hs) as [q [Hq [Hd [Hc [Hpq Hch]]]]]. specialize (H1 Hs). unfold st2. destruct (is_bkg x s) eqn:Eb.
+    - split; [exact H1|]. split; [reflexivity|]. split; [exact J1|]. intros E. destruct (Hch E) as [E2 _]. discriminate.
+    - assert (Hq1 : lookup u (st_users st1) = Some q) by exact Hq. destruct H1 as [A [B [C D]]].
+      split; [|split; [|split]].
+      + split; [exact A|]. split; [apply (att_x_online st1 u q); auto|]. split; [|apply (bkg_ok_same _ st1); auto].
+        apply (online_chan_online st1 u q); auto. intros E. cbn [pu_online set_pud_online]. rewrite Hc in E. destruct (Hch E) as [_ Hle].
+        unfold n. rewrite Hpq. lia.
+      + intros u2. now rewrite (live_modes_online st1 u q).
+      + intros Hj. apply (joined_online st1 u q); auto.
+      + intros E. exists (set_pud_online n q). cbn [st_users set_users]. rewrite lookup_upsert_same, Hq1. cbn. rewrite Hc. auto. }
+  assert (Hfin : forall st', (st' = st2 \/ (st' = set_users (remove_key u (st_users st2)) st2 /\ (n =? 0)%Z && asChan = true)) ->
+                 step_ok x (Some (set_xst st' x), []) false).
+  { intros st' Hst'. unfold step_ok. cbn [fst snd existsb]. split; [|split; [|discriminate]].
+    - intros Hinv. apply xinv_split in Hinv. destruct Hinv as [Hs Hc]. destruct (H2 Hs) as [S2 [L2 [_ C2]]].
+      destruct Hst' as [->|[-> Hz]].
+      + apply xinv_intro; cbn [x_st x_bkg set_xst]; [exact S2|]. apply coh_set_xst; [exact L2|exact Hc].
+      + apply andb_true_iff in Hz. destruct Hz as [Hz Ha]. apply Z.eqb_eq in Hz. rewrite <- Ec in Ha.
+        destruct (C2 Ha) as [q2 [Hq2 [Hc2 Ho2]]]. destruct S2 as [A [B [C D]]].
+        assert (Hcnt : cnt u (st_sess st2) = 0%nat) by (specialize (C u q2 Hq2 Hc2); lia).
+        apply xinv_intro; cbn [x_st x_bkg set_xst].
+        * split; [exact A|]. split; [now apply att_x_remove_user|]. split; [now apply online_chan_remove_user|exact D].
+        * apply coh_set_xst; [|exact Hc]. intros u2. rewrite live_modes_remove_user; auto.
+          unfold live_modes. rewrite Hq2, Hc2. now rewrite orb_true_r.
+    - intros Hinv Hj _. apply xinv_split in Hinv. destruct Hinv as [Hs Hc]. destruct (H2 Hs) as [S2 [L2 [J2 C2]]]. cbn [x_st set_xst].
+      destruct Hst' as [->|[-> Hz]]; [auto|].
+      apply andb_true_iff in Hz. destruct Hz as [Hz Ha]. apply Z.eqb_eq in Hz. rewrite <- Ec in Ha.
+      destruct (C2 Ha) as [q2 [Hq2 [Hc2 Ho2]]]. destruct S2 as [A [B [C D]]].
+      assert (Hcnt : cnt u (st_sess st2) = 0%nat) by (specialize (C u q2 Hq2 Hc2); lia).
+      apply joined_remove_user; auto. }
+  destruct (st_kind (x_st x)); try (apply Hfin; now left);
+    (destruct ((n =? 0)%Z && asChan) eqn:Ez; apply Hfin; [right; split; reflexivity|now left]).
+Qed.
+
+(* ---- connection closed; background timer; publish ---- *)
+Lemma bkg_ok_rm l k st : bkg_ok l st -> bkg_ok (rm k l) st.
+Proof. intros H s d Hin Hm. apply (H s d Hin). now apply (mem_rm s k l). Qed.
+
+Lemma xdisc_ok x s : step_ok x (Some (xdisc x s), []) false.
+Proof.
+  unfold step_ok, xdisc. cbn [fst snd existsb]. split; [|split; [|discriminate]].
+  - intros Hinv. apply xinv_split in Hinv. destruct Hinv as [[A [B [C D]]] Hc].
+    destruct (xdrop_keeps (rm s (x_bkg x)) (x_st x) s A B C) as [A1 [A2 [A3 [A4 [_ A6]]]]].
+    apply xinv_intro; cbn [x_st x_bkg].
+    + apply (sinv_same _ (xdrop_session (rm s (x_bkg x)) (x_st x) s)); [reflexivity|reflexivity|].
+      split; [exact A1|]. split; [exact A2|]. split; [exact A3|]. apply A4. now apply bkg_ok_rm.
+    + intros u. cbn [x_rows x_st]. rewrite (Hc u). rewrite <- A6. reflexivity.
+  - intros Hinv Hj _. apply xinv_split in Hinv. destruct Hinv as [[A [B [C D]]] Hc]. cbn [x_st].
+    destruct (xdrop_keeps (rm s (x_bkg x)) (x_st x) s A B C) as [_ [_ [_ [_ [A5 _]]]]].
+    apply (joined_same (xdrop_session (rm s (x_bkg x)) (x_st x) s)); [reflexivity|reflexivity|auto].
+Qed.
+
+Lemma xforeground_ok x s : step_ok x (Some (xforeground x s), []) false.
+Proof.
+  unfold xforeground. destruct (negb (is_bkg x s)); [apply step_ok_same|].
+  assert (Hx1 : step_ok x (Some (set_xbkg (rm s (x_bkg x)) x), []) false).
+  { unfold step_ok. cbn [fst snd existsb]. split; [|split; [|discriminate]]; [|auto].
+    intros Hinv. apply xinv_split in Hinv. destruct Hinv as [[A [B [C D]]] Hc]. apply xinv_intro; cbn [x_st x_bkg set_xbkg].
+    - split; [exact A|]. split; [exact B|]. split; [exact C|now apply bkg_ok_rm].
+    - exact Hc. }
+  destruct (st_kind (x_st x)); try exact Hx1; (destruct (lookup s (st_sess (x_st x))) as [d|] eqn:Es; [|exact Hx1];
+    destruct (ss_chan d) eqn:Ec; [exact Hx1|]; pose proof (lookup_in _ _ _ Es) as Hin;
+    unfold step_ok; cbn [fst snd existsb]; (split; [|split; [|discriminate]]);
+    [ intros Hinv; apply xinv_split in Hinv; destruct Hinv as [[A [B [C D]]] Hc]; destruct (B s d Hin) as [p [Hp [Hd Hch]]];
+      apply xinv_intro; cbn [x_st x_bkg set_xst set_xbkg];
+      [ split; [exact A|]; split; [apply (att_x_online (x_st x) (ss_uid d) p); auto|]; split;
+        [apply (online_chan_online (x_st x) (ss_uid d) p); auto; intros; congruence|];
+        apply (bkg_ok_same _ (x_st x)); [reflexivity|now apply bkg_ok_rm]
+      | intros u2; cbn [x_rows x_st set_xst set_xbkg]; rewrite (live_modes_online (x_st x) (ss_uid d) p); auto ]
+    | intros Hinv Hj _; apply xinv_split in Hinv; destruct Hinv as [[A [B [C D]]] Hc]; destruct (B s d Hin) as [p [Hp [Hd Hch]]];
+      cbn [x_st set_xst set_xbkg]; apply (joined_online (x_st x) (ss_uid d) p); auto ]).
+Qed.
+
+Lemma xpublish_fst x px : fst (xpublish x px) = fst (publish (x_st x) px).
+Proof. unfold xpublish. destruct (fst (publish (x_st x) px)); reflexivity. Qed.
+
+Lemma xpublish_ok x px : step_ok x (Some (snd (xpublish x px)), []) false.
+Proof.
+  unfold xpublish. destruct (fst (publish (x_st x) px)) as [| | |seq ack copies push]; try apply step_ok_same.
+  cbn [snd]. unfold step_ok. cbn [fst snd existsb]. split; [|split; [|discriminate]].
+  - intros Hinv. apply xinv_split in Hinv. destruct Hinv as [[A [B [C D]]] Hc].
+    assert (S0 : sinv (x_bkg x) (set_lastid seq (x_st x))) by (apply (sinv_same _ (x_st x)); [reflexivity|reflexivity|repeat split; auto]).
+    destruct S0 as [A0 [B0 [C0 D0]]].
+    destruct (xdrop_fold (x_bkg x) (overflowed copies) _ A0 B0 C0) as [F1 [F2 [F3 [F4 [_ [F6 _]]]]]].
+    apply xinv_intro; cbn [x_st x_bkg set_xst]; [repeat split; auto|].
+    apply coh_set_xst; [|exact Hc]. intros u. rewrite F6. reflexivity.
+  - intros Hinv Hj _. apply xinv_split in Hinv. destruct Hinv as [[A [B [C D]]] Hc]. cbn [x_st set_xst].
+    assert (S0 : sinv (x_bkg x) (set_lastid seq (x_st x))) by (apply (sinv_same _ (x_st x)); [reflexivity|reflexivity|repeat split; auto]).
+    destruct S0 as [A0 [B0 [C0 D0]]].
+    destruct (xdrop_fold (x_bkg x) (overflowed copies) _ A0 B0 C0) as [_ [_ [_ [_ [F5 _]]]]]. apply F5.
+    apply (joined_same (x_st x)); [reflexivity|reflexivity|exact Hj].
+Qed.
+
+(* ---- {set sub mode} on the own subscription ---- *)
+Lemma xset_want_ok x f u m : step_ok x (xset_want x f u m) false.
+Proof.
+  unfold xset_want. destruct (lookup u (st_users (x_st x))) as [p|] eqn:Hp; [|apply step_ok_none].
+  destruct (pu_deleted p || pu_ischan p) eqn:Edc; [apply step_ok_none|]. apply orb_false_iff in Edc. destruct Edc as [Hd Hnc].
+  destruct (own_modes (x_st x) u p (Some m)) as [| |want given] eqn:Eo; [apply step_ok_same|apply step_ok_none|].
+  pose proof (own_apply_calls x f u p want given) as Hcalls.
+  assert (Hch' : pu_ischan p = true -> want = pu_want p /\ given = pu_given p) by congruence.
+  pose proof (own_apply_spec x f u p want given Hp Hd Hch') as Hspec.
+  destruct (own_apply x f u p want given) as [[x1|] cl] eqn:Ea; [|apply step_ok_same].
+  destruct (negb (has want bJ)) eqn:Ew; unfold step_ok; cbn [fst snd]; (split; [|split; [|intros H; rewrite Hcalls in H; discriminate]]).
+  - intros Hinv. destruct (Hspec Hinv) as [_ [Hb [Hs1 [Hc1 Hst1]]]].
+    apply xinv_intro; cbn [x_st x_bkg set_xst]; try rewrite Hb; [now apply sinv_evict|].
+    apply coh_set_xst; [|exact Hc1]. intros u2. apply live_modes_evict_false.
+  - intros Hinv Hj _. destruct (Hspec Hinv) as [_ [_ [_ [_ Hst1]]]]. cbn [x_st set_xst]. rewrite Hst1. now apply joined_modes_evict.
+  - intros Hinv. destruct (Hspec Hinv) as [_ [Hb [Hs1 [Hc1 Hst1]]]]. apply xinv_intro; [now rewrite Hb|exact Hc1].
+  - intros Hinv Hj _. destruct (Hspec Hinv) as [_ [_ [_ [_ Hst1]]]]. rewrite Hst1. apply negb_false_iff in Ew.
+    apply (joined_modes (x_st x) u p want given Hp Hj). intros _ Hcnt. split; [exact Ew|].
+    destruct (cnt_pos_in _ _ Hcnt) as [s' [d' [Hin Hu]]]. rewrite <- Hu in Hp.
+    destruct (Hj s' d' p Hin Hp Hnc) as [_ Hg]. exact (own_modes_given _ _ _ _ _ _ Eo Hg).
+Qed.
+
+(* ---- {set sub user mode}: another user's grant ---- *)
+Lemma xset_given_ok x f h u m : step_ok x (xset_given x f h u m) false.
+Proof.
+  unfold xset_given. destruct (h =? u); [apply step_ok_none|].
+  destruct (lookup h (st_users (x_st x))) as [hp|]; [|apply step_ok_same].
+  destruct (negb (has (eff hp) bO || has (eff hp) bA)); [apply step_ok_same|].
+  set (m' := match st_kind (x_st x) with KP2P => N.lor (N.land m mode_cp2p) bA | _ => m end).
+  destruct (has m' bO). { destruct (st_owner (x_st x) =? h); [apply step_ok_none|apply step_ok_same]. }
+  destruct (lookup u (st_users (x_st x))) as [p|] eqn:Hp; [|apply step_ok_none].
+  destruct (pu_deleted p || pu_ischan p) eqn:Edc; [apply step_ok_none|]. apply orb_false_iff in Edc. destruct Edc as [Hd Hnc].
+  destruct (m' =? pu_given p) eqn:Em.
+  - destruct (negb (has m' bJ)); [|apply step_ok_same]. unfold step_ok. cbn [fst snd existsb]. split; [|split; [|discriminate]].
+    + intros Hinv. apply xinv_split in Hinv. destruct Hinv as [Hs Hc]. apply xinv_intro; cbn [x_st x_bkg set_xst]; [now apply sinv_evict|].
+      apply coh_set_xst; [|exact Hc]. intros u2. apply live_modes_evict_false.
+    + intros _ Hj _. cbn [x_st set_xst]. now apply joined_evict.
+  - destruct (st_owner (x_st x) =? u); [apply step_ok_same|]. destruct (fails f 0); [apply step_ok_same|].
+    set (st1 := set_users (update u (set_pud_modes (pu_want p) m') (st_users (x_st x))) (x_st x)).
+    assert (Hcoh : coh x -> forall u2, lookup u2 (row_upd u (pu_want p, m') (x_rows x)) = live_modes st1 u2).
+    { intros Hc u2. unfold st1. rewrite (live_modes_modes (x_st x) u p (pu_want p) m' Hp u2 Hd Hnc).
+      assert (Hold : lookup u (x_rows x) = Some (pu_want p, pu_given p)) by (rewrite (Hc u); unfold live_modes; now rewrite Hp, Hd, Hnc).
+      rewrite (rows_update_lookup _ _ _ _ _ Hold). destruct (u2 =? u); [reflexivity|apply Hc]. }
+    destruct (negb (has m' bJ)) eqn:Ej; unfold step_ok; cbn [fst snd existsb orb]; (split; [|split; [|discriminate]]).
+    + intros Hinv. apply xinv_split in Hinv. destruct Hinv as [Hs Hc]. apply xinv_intro; cbn [x_st x_bkg x_rows set_xst set_xrows].
+      * apply sinv_evict. now apply (sinv_modes _ _ u p).
+      * intros u2. cbn [x_st x_rows set_xst set_xrows]. rewrite live_modes_evict_false. now apply Hcoh.
+    + intros _ Hj _. cbn [x_st set_xst set_xrows]. now apply joined_modes_evict.
+    + intros Hinv. apply xinv_split in Hinv. destruct Hinv as [Hs Hc]. apply xinv_intro; cbn [x_st x_bkg x_rows set_xst set_xrows].
+      * now apply (sinv_modes _ _ u p).
+      * intros u2. cbn [x_st x_rows set_xst set_xrows]. now apply Hcoh.
+    + intros _ Hj _. cbn [x_st set_xst set_xrows]. apply negb_false_iff in Ej.
+      apply (joined_modes (x_st x) u p (pu_want p) m' Hp Hj). intros _ Hcnt. split; [|exact Ej].
+      destruct (cnt_pos_in _ _ Hcnt) as [s' [d' [Hin Hu]]]. rewrite <- Hu in Hp. now destruct (Hj s' d' p Hin Hp Hnc).
+Qed.
+
+(* ---- {leave unsub}, {del sub} ---- *)
+Lemma remove_user_ok x u (cached_chan : bool) :
+  let st' := set_gone (u :: st_gone (x_st x)) (evict_user (x_st x) u true) in
+  (xinv x -> xinv (set_xrows (remove_key u (x_rows x)) (set_xst st' x))) /\ (joined (x_st x) -> joined st').
+Proof.
+  intros st'. split.
+  - intros Hinv. apply xinv_split in Hinv. destruct Hinv as [Hs Hc]. apply xinv_intro; cbn [x_st x_bkg x_rows set_xst set_xrows].
+    + apply (sinv_same _ (evict_user (x_st x) u true)); [reflexivity|reflexivity|now apply sinv_evict].
+    + intros u2. cbn [x_st x_rows set_xst set_xrows]. unfold st'. rewrite (live_modes_same (evict_user (x_st x) u true)) by reflexivity.
+      rewrite live_modes_evict_true. destruct (N.eqb_spec u2 u) as [->|E].
+      * apply lookup_remove_key_same.
+      * rewrite lookup_remove_key_other by assumption. apply Hc.
+  - intros Hj. apply (joined_same (evict_user (x_st x) u true)); [reflexivity|reflexivity|now apply joined_evict].
+Qed.
+
+Lemma xunsub_ok x f s u c : step_ok x (xunsub x f s u c) false.
+Proof.
+  unfold xunsub. destruct (negb (has_key s (st_sess (x_st x)))); [apply step_ok_same|].
+  destruct (st_owner (x_st x) =? u); [apply step_ok_same|]. destruct (negb (chan_ok (x_st x) c)); [apply step_ok_same|].
+  destruct (lookup u (st_users (x_st x))) as [p|] eqn:Hp; [|apply step_ok_none].
+  destruct (pu_deleted p) eqn:Hd; [apply step_ok_none|].
+  assert (Hplain : step_ok x (Some (set_xrows (remove_key u (x_rows x))
+                     (set_xst (set_gone (u :: st_gone (x_st x)) (evict_user (x_st x) u true)) x)), [(CDel, false)]) false).
+  { destruct (remove_user_ok x u false) as [A B]. unfold step_ok. cbn [fst snd existsb orb]. split; [exact A|]. split; [|discriminate].
+    intros _ Hj _. cbn [x_st set_xst set_xrows]. now apply B. }
+  destruct (st_kind (x_st x)).
+  - destruct (fails f 0); [apply step_ok_same|]. destruct (pu_ischan p) eqn:Hc; [|exact Hplain].
+    unfold step_ok. cbn [fst snd existsb orb]. split; [|split; [|discriminate]].
+    + intros Hinv. apply xinv_split in Hinv. destruct Hinv as [Hs Hco]. apply xinv_intro; cbn [x_st x_bkg set_xst].
+      * apply (sinv_same _ (evict_user (x_st x) u true)); [reflexivity|reflexivity|now apply sinv_evict].
+      * apply coh_set_xst; [|exact Hco]. intros u2. rewrite (live_modes_same (evict_user (x_st x) u true)) by reflexivity.
+        rewrite live_modes_evict_true. destruct (N.eqb_spec u2 u) as [->|E]; [|reflexivity].
+        unfold live_modes. rewrite Hp, Hc. now rewrite orb_true_r.
+    + intros _ Hj _. cbn [x_st set_xst]. apply (joined_same (evict_user (x_st x) u true)); [reflexivity|reflexivity|now apply joined_evict].
+  - destruct (fails f 0); [apply step_ok_same|]. destruct (pu_ischan p) eqn:Hc; [|exact Hplain].
+    unfold step_ok. cbn [fst snd existsb orb]. split; [|split; [|discriminate]].
+    + intros Hinv. apply xinv_split in Hinv. destruct Hinv as [Hs Hco]. apply xinv_intro; cbn [x_st x_bkg set_xst].
+      * apply (sinv_same _ (evict_user (x_st x) u true)); [reflexivity|reflexivity|now apply sinv_evict].
+      * apply coh_set_xst; [|exact Hco]. intros u2. rewrite (live_modes_same (evict_user (x_st x) u true)) by reflexivity.
+        rewrite live_modes_evict_true. destruct (N.eqb_spec u2 u) as [->|E]; [|reflexivity].
+        unfold live_modes. rewrite Hp, Hc. now rewrite orb_true_r.
+    + intros _ Hj _. cbn [x_st set_xst]. apply (joined_same (evict_user (x_st x) u true)); [reflexivity|reflexivity|now apply joined_evict].
+  - destruct (existsb _ _); [apply step_ok_none|]. destruct (fails f 0); [apply step_ok_same|exact Hplain].
+Qed.
+
+Lemma xevict_ok x f h u : step_ok x (xevict x f h u) false.
+Proof.
+  unfold xevict. destruct (negb _); [apply step_ok_same|]. destruct ((u =? 0) || (u =? h)); [apply step_ok_same|].
+  destruct (st_kind (x_st x)); try apply step_ok_same;
+    (destruct (lookup u (st_users (x_st x))) as [p|]; [|apply step_ok_same]; destruct (pu_ischan p); [apply step_ok_none|];
+     destruct (has (eff p) bO); [apply step_ok_same|]; destruct (negb (has (pu_want p) bJ)); [apply step_ok_same|];
+     destruct (fails f 0); [apply step_ok_same|];
+     destruct (remove_user_ok x u false) as [A B]; unfold step_ok; cbn [fst snd existsb orb]; (split; [exact A|]); (split; [|discriminate]);
+     intros _ Hj _; cbn [x_st set_xst set_xrows]; now apply B).
+Qed.
+
+(* ---- every request ---- *)
+Lemma xstep_ok x o : step_ok x (xr_state (xstep x o), xr_calls (xstep x o)) (ban_bypass x o).
+Proof.
+  destruct o; cbn [xstep].
+  - pose proof (xattach_ok x f s u chan mw) as H. destruct (xattach x f s u chan mw) as [r cl]. exact H.
+  - exact (xdetach_ok x s u chan).
+  - exact (xdisc_ok x s).
+  - exact (xforeground_ok x s).
+  - pose proof (xunsub_ok x f s u chan) as H. destruct (xunsub x f s u chan) as [r cl]. exact H.
+  - pose proof (xset_want_ok x f u m) as H. destruct (xset_want x f u m) as [r cl]. exact H.
+  - pose proof (xset_given_ok x f h u m) as H. destruct (xset_given x f h u m) as [r cl]. exact H.
+  - pose proof (xevict_ok x f h u) as H. destruct (xevict x f h u) as [r cl]. exact H.
+  - cbn [xr_state xr_calls ban_bypass]. destruct (is_full (x_st x) s); [apply step_ok_same|].
+    unfold step_ok. cbn [fst snd existsb]. split; [|split; [|discriminate]].
+    + intros Hinv. apply xinv_split in Hinv. destruct Hinv as [Hs Hc]. apply xinv_intro; cbn [x_st x_bkg set_xst].
+      * apply (sinv_same _ (x_st x)); auto.
+      * apply coh_set_xst; [reflexivity|exact Hc].
+    + intros _ Hj _. exact Hj.
+  - cbn [xr_state xr_calls ban_bypass]. unfold step_ok. cbn [fst snd existsb]. split; [|split; [|discriminate]].
+    + intros Hinv. apply xinv_split in Hinv. destruct Hinv as [Hs Hc]. apply xinv_intro; cbn [x_st x_bkg set_xst].
+      * apply (sinv_same _ (x_st x)); auto.
+      * apply coh_set_xst; [reflexivity|exact Hc].
+    + intros _ Hj _. exact Hj.
+  - pose proof (xpublish_ok x px) as H. destruct (xpublish x px) as [r x'] eqn:E. exact H.
+Qed.
